@@ -1,4 +1,5 @@
 import TrionModel.Lemmas.C04Mix2
+import TrionModel.Lemmas.C04Dich
 import TrionModel.Props.C04Closed
 /-!
 # C04 closed, extension — operands that mix one register name with numbers (`R1 + 0`, `[R1 + 2 + 3]`, `[4 + R1 + 4]`)
@@ -103,5 +104,63 @@ example :
     ∃ d st, build 0 (bytesOf "LDRB") [.ident (bytesOf "R0"),
       .addr (.bin .sub (.bin .add (.bin .add (.ident (bytesOf "R1")) (.const 9223372036854775807)) (.const 1)) (.const 9223372036854775807))]
       (Show.simpEval exLk) true = .error d st := ⟨by decide, _, _, rfl⟩
+
+/-! ## run level: the dichotomy on the extended operand class -/
+
+/-- C04m.c  **Through the whole pipeline model, extended operands: assembled to the meaning, or diagnosed at the statement.**
+For every program text read as `.addr A;`, definitions building `tbl`, and ONE instruction statement `name args` with a
+known mnemonic whose evaluated operands are of the documented forms OR sums with one register name (`wellFormed2`):
+EITHER the statement has the extended meaning `i` (`means2`), `i` fits its field types, the encoder accepts it (`hws`, the
+ARMv6-M table's encoding of `i`), and — if the bytes fit below 2^32 — `Asm.run` succeeds without a diagnostic with exactly
+those bytes at `A`; OR `Asm.run` does not succeed, records at least one diagnostic, and every diagnostic is at the
+statement.  Never a third case: no wrong, wrapped or neighbouring encoding is placed. -/
+theorem run_defs_stmt2 (fs : Bytes → Option Bytes) (main data : Bytes) (hfs : fs main = some data)
+    (els : List Element) (hp : Asm.parseFile data = .ok (els, none)) (A : Nat) (hA : A < 4294967296)
+    (defs : List (Bytes × Arg)) (name : Bytes) (args : Args) (hels : els.map (·.val) = progVals A defs name args)
+    (tbl : Asm.Table) (hdefs : defsTable defs [] = some tbl)
+    (t : Instr) (hm : mnemonic name = some t) (hw : wellFormed2 (tabOf tbl) (sig t) args.toList)
+    (hq : ∀ vs, denoteAll2 (tabOf tbl) (sig t) args.toList = some vs → ¬ svQuirk t vs) :
+    (∃ i hws, means2 (tabOf tbl) A name args.toList = some i ∧ i.wf ∧ Codec.encode i = .ok hws ∧ Arm.decode hws = some i ∧
+      (A + 2 * hws.length ≤ 4294967296 →
+        Asm.run fs main = .done ⟨true, none, true, [], [(A, (Codec.toBytes hws).map (·.toUInt8))]⟩)) ∨
+    (∃ el o, el ∈ els ∧ el.val = .instruction name args ∧ Asm.run fs main = .done o ∧ o.success = false ∧ o.diags ≠ [] ∧
+      ∀ d ∈ o.diags, d.file = main ∧ d.line = el.line ∧ d.col = el.col) := by
+  have hnd : Asm.Table.NoDef tbl := defsTable_nodef defs [] tbl (by intro n; simp [Asm.Table.find]) hdefs
+  have hi64 : tblI64 tbl := defsTable_i64 defs [] tbl (by intro n v h; simp [Asm.Table.find] at h) hdefs
+  have hn := Asm.Table.nodef_get hnd
+  have hTk := tableOk_of_tblI64 hi64
+  have hE := evalSimp_frontEval tbl
+  have hdiag : ((∃ i, build A name args.toList (Asm.frontEval tbl) true = .completed i) ∨
+        (∃ d st, build A name args.toList (Asm.frontEval tbl) true = .error d st)) →
+      (∀ i hws, build A name args.toList (Asm.frontEval tbl) true = .completed i → Codec.encode i ≠ .ok hws) →
+      ∃ el o, el ∈ els ∧ el.val = .instruction name args ∧ Asm.run fs main = .done o ∧ o.success = false ∧ o.diags ≠ [] ∧
+        ∀ d ∈ o.diags, d.file = main ∧ d.line = el.line ∧ d.col = el.col := by
+    intro htot henc0
+    refine run_defs_stmt_diag_of fs main data hfs els hp A hA defs name args hels tbl hdefs ?_
+    intro l c st' r hnd' hi64' hX
+    have := instr_diag_of ⟨[main], main⟩ ⟨⟨[], some ⟨A, [], Map.u32Max - A + 1⟩, []⟩, [], some tbl, [], some [], []⟩ tbl hnd' hi64'
+      (by simp) rfl [] ⟨A, [], Map.u32Max - A + 1⟩ [] rfl l c name args.toList t hm
+      (by rw [Show.cur_empty A _ hA]; exact htot) (by rw [Show.cur_empty A _ hA]; exact henc0) st' r hX
+    simpa using this
+  rcases build_total2 hn hTk hE true A name args.toList t hm hw with ⟨i, hb⟩ | ⟨d, st, hb⟩
+  · cases he : Codec.encode i with
+    | ok hws =>
+      left
+      obtain ⟨h1, h2, h3, _⟩ := stmt_sound2 hn hTk hE true A name args.toList t hm hw hq i hb hws he
+      exact ⟨i, hws, h1, h2, he, h3, fun hfit =>
+        (run_defs_stmt_of_build fs main data hfs els hp A defs name args hels tbl hdefs i hb hws he hfit).1⟩
+    | error e =>
+      right
+      refine hdiag (.inl ⟨i, hb⟩) ?_
+      intro i' hws hb' he'
+      rw [hb] at hb'
+      cases hb'
+      rw [he] at he'
+      cases he'
+  · right
+    refine hdiag (.inr ⟨d, st, hb⟩) ?_
+    intro i' hws hb'
+    rw [hb] at hb'
+    cases hb'
 
 end Trion.C04
